@@ -13,7 +13,8 @@ from harness.common import Ctx, drive, guard
 
 RULE = ("Hypothesis draws an initial line-up (repeated classes allowed) and a history of operations {calibrate(n), "
         "set_samplers(new line-up), set_scheduler(RoundRobinScheduler(new line-up)), explicit checkpoint, read labels through "
-        "black_it.plot.plot_results._get_samplers_names(folder, ids present)}; BaseSampler.sample is wrapped at class level to "
+        "black_it.plot.plot_results._get_samplers_names(folder, ids present), restore from the calibrator's own checkpoint and "
+        "carry on}; BaseSampler.sample is wrapped at class level to "
         "know the producing class of every row. Non-trivial = >= 1 replacement introducing a new class, followed by a "
         "calibrate and a label read.")
 ASSUMPTIONS = ["only checkpoints written by the calibrator itself are read (legacy list-of-samplers pickles are covered by the "
@@ -38,7 +39,8 @@ def cases(draw):
     ops = draw(st.lists(st.one_of(st.tuples(st.just("calibrate"), st.integers(1, 3)),
                                   st.tuples(st.just("set_samplers"), lineups()),
                                   st.tuples(st.just("set_scheduler"), lineups()),
-                                  st.tuples(st.just("checkpoint")), st.tuples(st.just("read"))), min_size=2, max_size=8))
+                                  st.tuples(st.just("checkpoint")), st.tuples(st.just("read")),
+                                  st.tuples(st.just("restore"))), min_size=2, max_size=8))
     ops = [list(o) for o in ops] + [["read"]]
     return {"initial": draw(lineups()), "ops": ops, "seed": draw(st.integers(0, 1000))}
 
@@ -79,7 +81,12 @@ def check_labels(ctx: Ctx, case):
             cal = calib.build(cfg, saving_folder=folder)
             table = dict(cal.samplers_id_table)
             written = False
+            last_write_complete = False
             for oi, op in enumerate(case["ops"]):
+                if op[0] in ("calibrate", "checkpoint"):
+                    last_write_complete = True
+                elif op[0] in ("set_samplers", "set_scheduler"):
+                    last_write_complete = False   # the folder no longer holds the live state: restoring would rewind
                 rows = cal.n_sampled_params
                 if op[0] == "calibrate":
                     cal.calibrate(op[1])
@@ -91,6 +98,11 @@ def check_labels(ctx: Ctx, case):
                 elif op[0] == "checkpoint":
                     cal.create_checkpoint(folder)
                     written = True
+                elif op[0] == "restore" and written and last_write_complete:
+                    # carry on from the calibrator's own checkpoint: ids must survive the round trip as well
+                    from black_it.calibrator import Calibrator
+                    from harness import models
+                    cal = Calibrator.restore_from_checkpoint(folder, models.get("gauss", 1))
                 # ---- table invariants --------------------------------------------------------------------------------
                 cur = dict(cal.samplers_id_table)
                 for name, i in table.items():
